@@ -73,7 +73,7 @@ static RefRun reference(const std::string& text, const std::vector<std::string>&
 
 struct C19 : Profile {
   const char* id() const override { return "C19"; }
-  long budget(const std::string& tier) const override { return tier == "thorough" ? 100000 : 3000; }
+  long budget(const std::string& tier) const override { return tier == "thorough" ? 100000 : 10000; }
   bool fork_per_run() const override { return true; }
   std::string rule() const override {
     return "plan = generated program (succeeding, failing to compile through token damage, failing at run time, returning each value type or nothing) + argument vector "
